@@ -622,35 +622,45 @@ Proof. constructor; try reflexivity; cbn; lia. Qed.
 Lemma fr_dow : fr_ok fs_dow dow.
 Proof. constructor; try reflexivity; cbn; lia. Qed.
 
-(* PARSE_DENOTES. Whenever the documented grammar has an opinion on a spec, the model of
-   NewParser(o).Parse(spec) - either variant, any LoadLocation / ParseDuration oracles - does
-   exactly what it says: the six denoted sets when every item is valid, an error otherwise. *)
-Theorem parse_denotes v o ll pd spec :
-  match parse_doc_out o spec with
-  | Some (ObsOk a b c d e f) => parse v o ll pd spec = Ok (SpecSched a b c d e f LocLocal)
-  | Some ObsErr => exists err, parse v o ll pd spec = Err err
+(* the part of Parser.Parse after the TZ prefix and the descriptor test *)
+Definition fields_model (o : Z) (rest : list N) (loc : sched_loc) : result schedule perr :=
+  bind (normalize_fields (go_fields rest) o) (fun fields =>
+    match fields with
+    | [f0; f1; f2; f3; f4; f5] =>
+        bind (get_field f0 seconds) (fun second =>
+        bind (get_field f1 minutes) (fun minute =>
+        bind (get_field f2 hours) (fun hour =>
+        bind (get_field f3 dom) (fun dayofmonth =>
+        bind (get_field f4 months) (fun month =>
+        bind (get_field f5 dow) (fun dayofweek =>
+          Ok (SpecSched second minute hour dayofmonth month dayofweek loc)))))))
+    | _ => Panic
+    end).
+
+Lemma parser_after_strip v o ll pd spec loc rest :
+  spec <> [] -> strip_tz v ll spec = Ok (loc, rest) ->
+  parser_parse v o ll pd spec =
+  if prefixb (bs "@") rest
+  then (if negb (has o o_descriptor) then Err EDescriptorsOff else parse_descriptor pd rest loc)
+  else fields_model o rest loc.
+Proof.
+  intros Hne Hs. unfold parser_parse. destruct spec as [|c0 s0]; [congruence|].
+  rewrite Hs. reflexivity.
+Qed.
+
+(* field lists *)
+Lemma fields_denote o rest loc :
+  match doc_fields_out o rest with
+  | Some (ObsOk a b c d e f) => fields_model o rest loc = Ok (SpecSched a b c d e f loc)
+  | Some ObsErr => exists err, fields_model o rest loc = Err err
   | Some _ => False
   | None => True
   end.
 Proof.
-  unfold parse_doc_out, parse.
-  destruct (has_tz_prefix spec) eqn:Htz; cbn [orb]; [exact I|].
-  destruct (prefixb (bs "@") spec) eqn:Hat; cbn [orb]; [exact I|].
-  destruct (new_parser_panics o) eqn:Hnp; cbn [orb]; [exact I|].
-  destruct spec as [|c0 s0]; [exact I|]. set (spec := c0 :: s0) in *.
-  destruct (normalize_fields (go_fields spec) o) as [fields| |] eqn:En; try exact I.
+  unfold doc_fields_out, fields_model.
+  destruct (normalize_fields (go_fields rest) o) as [fields|er|] eqn:En; cbn [bind];
+    [|eexists; reflexivity | exact I].
   destruct fields as [|f0 [|f1 [|f2 [|f3 [|f4 [|f5 [|f6 l]]]]]]]; try exact I.
-  assert (Hpp : parser_parse v o ll pd spec =
-                bind (get_field f0 seconds) (fun second =>
-                bind (get_field f1 minutes) (fun minute =>
-                bind (get_field f2 hours) (fun hour =>
-                bind (get_field f3 dom) (fun dayofmonth =>
-                bind (get_field f4 months) (fun month =>
-                bind (get_field f5 dow) (fun dayofweek =>
-                  Ok (SpecSched second minute hour dayofmonth month dayofweek LocLocal)))))))).
-  { unfold parser_parse, spec. fold spec. rewrite (strip_tz_none v ll spec Htz). cbn [bind].
-    rewrite Hat, En. reflexivity. }
-  rewrite Hpp. clear Hpp.
   destruct (refused_field fs_second f0 || refused_field fs_minute f1 || refused_field fs_hour f2 ||
             refused_field fs_dom f3 || refused_field fs_month f4 || refused_field fs_dow f5) eqn:R.
   { (* some field holds an item the documentation refuses by name *)
@@ -694,34 +704,121 @@ Proof.
   destruct f as [f|]; [rewrite H5; cbn [bind]; reflexivity | destruct H5 as (err & ->); eexists; reflexivity].
 Qed.
 
-(* the same, in the words of the correspondence check: on such a spec the parse oracle of
-   Check.v and the model never disagree (a verdict 2 of a parse case is a disagreement of
-   the IMPLEMENTATION with both) *)
+
+Lemma doc_every_eq d : doc_every d = every d.
+Proof.
+  unfold doc_every, every, ns_per_s. destruct (d <? 1000000000) eqn:E; Z.div_mod_to_equations; lia.
+Qed.
+
+(* descriptors *)
+Lemma descriptor_denote du pd d loc : pd (skipn 7 d) = du ->
+  match doc_descriptor du d with
+  | ObsOk a b c d' e f => parse_descriptor pd d loc = Ok (SpecSched a b c d' e f loc)
+  | ObsEvery n => parse_descriptor pd d loc = Ok (EverySched n)
+  | ObsErr => exists err, parse_descriptor pd d loc = Err err
+  | ObsPanic => False
+  end.
+Proof.
+  intros Hpd. unfold doc_descriptor, parse_descriptor, desc_is.
+  destruct (eqb_listN d (bs "@yearly") || eqb_listN d (bs "@annually")); [vm_compute; reflexivity|].
+  destruct (eqb_listN d (bs "@monthly")); [vm_compute; reflexivity|].
+  destruct (eqb_listN d (bs "@weekly")); [vm_compute; reflexivity|].
+  destruct (eqb_listN d (bs "@daily") || eqb_listN d (bs "@midnight")); [vm_compute; reflexivity|].
+  destruct (eqb_listN d (bs "@hourly")); [vm_compute; reflexivity|].
+  destruct (prefixb (bs "@every ") d); [|eexists; reflexivity].
+  rewrite Hpd. destruct du as [ns|]; [rewrite doc_every_eq; reflexivity | eexists; reflexivity].
+Qed.
+
+(* the spec after the optional TZ prefix *)
+Lemma body_denote v o ll pd du spec loc rest :
+  spec <> [] -> strip_tz v ll spec = Ok (loc, rest) -> pd (skipn 7 rest) = du ->
+  match parse_doc_body o du rest with
+  | Some (ObsOk a b c d e f) => parser_parse v o ll pd spec = Ok (SpecSched a b c d e f loc)
+  | Some (ObsEvery n) => parser_parse v o ll pd spec = Ok (EverySched n)
+  | Some ObsErr => exists err, parser_parse v o ll pd spec = Err err
+  | Some ObsPanic => False
+  | None => True
+  end.
+Proof.
+  intros Hne Hs Hpd. rewrite (parser_after_strip v o ll pd spec loc rest Hne Hs).
+  unfold parse_doc_body. destruct (prefixb (bs "@") rest).
+  - destruct (has o o_descriptor); cbn [negb]; [|eexists; reflexivity].
+    apply (descriptor_denote du pd rest loc Hpd).
+  - pose proof (fields_denote o rest loc) as H.
+    destruct (doc_fields_out o rest) as [[a b' c d e f| n | |]|]; try exact H. contradiction.
+Qed.
+
+(* PARSE_DENOTES. Whenever the documented grammar has an opinion on a spec - field lists,
+   descriptors, with or without a TZ=/CRON_TZ= prefix - the model of NewParser(o).Parse(spec)
+   does exactly what it says. [zo], [du]: the answers of time.LoadLocation and
+   time.ParseDuration (None = error). With a TZ prefix the statement is for the current tree
+   (before the fix a prefix with no following field panicked). *)
+Theorem parse_denotes v o zo du spec :
+  v = Fixed \/ has_tz_prefix spec = false ->
+  match parse_doc_out o zo du spec with
+  | Some (ObsOk a b c d e f) =>
+      exists loc, parse v o (fun _ => zo) (fun _ => du) spec = Ok (SpecSched a b c d e f loc)
+  | Some (ObsEvery n) => parse v o (fun _ => zo) (fun _ => du) spec = Ok (EverySched n)
+  | Some ObsErr => exists err, parse v o (fun _ => zo) (fun _ => du) spec = Err err
+  | Some ObsPanic => False
+  | None => True
+  end.
+Proof.
+  intros Hv. unfold parse_doc_out, parse.
+  destruct (new_parser_panics o); [exact I|].
+  destruct spec as [|c0 s0]; [eexists; reflexivity|]. set (spec := c0 :: s0) in *.
+  assert (Hne : spec <> []) by discriminate.
+  assert (Hbody : forall loc rest, strip_tz v (fun _ => zo) spec = Ok (loc, rest) ->
+            match parse_doc_body o du rest with
+            | Some (ObsOk a b c d e f) =>
+                exists loc, parser_parse v o (fun _ => zo) (fun _ => du) spec = Ok (SpecSched a b c d e f loc)
+            | Some (ObsEvery n) => parser_parse v o (fun _ => zo) (fun _ => du) spec = Ok (EverySched n)
+            | Some ObsErr => exists err, parser_parse v o (fun _ => zo) (fun _ => du) spec = Err err
+            | Some ObsPanic => False
+            | None => True
+            end).
+  { intros loc rest Hs.
+    pose proof (body_denote v o (fun _ => zo) (fun _ => du) du spec loc rest Hne Hs eq_refl) as H.
+    destruct (parse_doc_body o du rest) as [[a b c d e f| n | |]|]; try exact H.
+    exists loc. exact H. }
+  destruct (has_tz_prefix spec) eqn:Htz.
+  - destruct Hv as [-> | Hv]; [|congruence].
+    destruct (strip_tz Fixed (fun _ => zo) spec) as [[loc rest]|er|] eqn:Hs; [|idtac|exact I].
+    + apply (Hbody loc rest eq_refl).
+    + exists er. unfold parser_parse, spec. fold spec. rewrite Hs. reflexivity.
+  - apply (Hbody LocLocal spec). apply strip_tz_none. exact Htz.
+Qed.
+
+(* the same, in the words of the correspondence check: the parse oracle of Check.v and the
+   model never disagree (a verdict 2 of a parse case is a disagreement of the IMPLEMENTATION
+   with both) *)
 Corollary parse_doc_model_agree v o spec zo du obs0 obs :
-  parse_doc_out o spec = Some obs ->
+  v = Fixed \/ has_tz_prefix spec = false ->
+  parse_doc_out o zo du spec = Some obs ->
   parse_obs_eqb obs (parse_model_out (mkParseCase v o spec zo du obs0)) = true.
 Proof.
-  intros H. pose proof (parse_denotes v o (fun _ => zo) (fun _ => du) spec) as P.
+  intros Hv H. pose proof (parse_denotes v o zo du spec Hv) as P.
   rewrite H in P. unfold parse_model_out. cbn [pc_variant pc_opts pc_zone pc_dur pc_spec].
-  destruct obs as [a b c d e f| | |]; try contradiction.
-  - rewrite P. cbn [parse_obs_eqb]. rewrite !N.eqb_refl. reflexivity.
+  destruct obs as [a b c d e f| n | |]; try contradiction.
+  - destruct P as (loc & ->). cbn [parse_obs_eqb]. rewrite !N.eqb_refl. reflexivity.
+  - rewrite P. cbn [parse_obs_eqb]. apply Z.eqb_refl.
   - destruct P as (err & ->). reflexivity.
 Qed.
 
 (* non-vacuity: names in mixed case, a stepped star, '?', a list *)
 Example parse_denotes_ex :
   exists a b c d e f,
-    parse_doc_out 380 (bs "*/15 0-6,22 ? JAN-mar,Dec mon-FRI") = Some (ObsOk a b c d e f) /\
+    parse_doc_out 380 None None (bs "*/15 0-6,22 ? JAN-mar,Dec mon-FRI") = Some (ObsOk a b c d e f) /\
     star d = true /\ star f = false /\ tb e 12 = true /\ tb e 4 = false /\ tb b 45 = true.
 Proof. vm_compute. repeat eexists. Qed.
 Example parse_denotes_ex_invalid :
-  parse_doc_out 380 (bs "* * * * 7") = Some ObsErr /\
-  parse_doc_out 380 (bs "* 5-2 * * *") = Some ObsErr /\
-  parse_doc_out 380 (bs "*/0 * * * *") = Some ObsErr /\
-  parse_doc_out 380 (bs "0 0 * Mayhem *") = Some ObsErr /\
-  parse_doc_out 380 (bs "+5 0 * jan-marble *") = Some ObsErr /\
-  parse_doc_out 380 (bs "0 0 * * mon/x2") = Some ObsErr /\
-  parse_doc_out 380 (bs "0 0 * * jan") = Some ObsErr.
+  parse_doc_out 380 None None (bs "* * * * 7") = Some ObsErr /\
+  parse_doc_out 380 None None (bs "* 5-2 * * *") = Some ObsErr /\
+  parse_doc_out 380 None None (bs "*/0 * * * *") = Some ObsErr /\
+  parse_doc_out 380 None None (bs "0 0 * Mayhem *") = Some ObsErr /\
+  parse_doc_out 380 None None (bs "+5 0 * jan-marble *") = Some ObsErr /\
+  parse_doc_out 380 None None (bs "0 0 * * mon/x2") = Some ObsErr /\
+  parse_doc_out 380 None None (bs "0 0 * * jan") = Some ObsErr.
 Proof. vm_compute. repeat split; reflexivity. Qed.
 
 (* ------------------------------------------------------------------------------------ *)
@@ -760,26 +857,19 @@ Proof.
            end.
 Qed.
 
-(* parse_denotes behind a time-zone prefix *)
-Corollary parse_denotes_tz v o ll pd spec loc rest :
-  new_parser_panics o = false -> spec <> [] ->
-  strip_tz v ll spec = Ok (loc, rest) ->
-  match parse_doc_out o rest with
-  | Some (ObsOk a b c d e f) => parse v o ll pd spec = Ok (SpecSched a b c d e f loc)
-  | Some ObsErr => exists err, parse v o ll pd spec = Err err
-  | Some _ => False
-  | None => True
-  end.
-Proof.
-  intros Hnp Hne Hs. pose proof (parse_denotes v o ll pd rest) as P.
-  destruct (parse_doc_out o rest) as [obs|] eqn:E; [|exact I].
-  assert (Htz : has_tz_prefix rest = false /\ rest <> []).
-  { unfold parse_doc_out in E. destruct (has_tz_prefix rest); [discriminate|].
-    split; [reflexivity|]. intros ->. cbn [orb] in E.
-    destruct (prefixb (bs "@") [] || new_parser_panics o); discriminate. }
-  destruct Htz as [Htz Hne'].
-  rewrite (parse_after_tz v o ll pd spec loc rest Hnp Hne Hs Htz Hne').
-  destruct obs as [a b c d e f| | |]; try contradiction.
-  - rewrite P. reflexivity.
-  - destruct P as (err & ->). eexists; reflexivity.
-Qed.
+(* descriptors: whole spec only; words after a descriptor, a second duration word, an unknown
+   zone and a prefix without fields are refused *)
+Example parse_denotes_descriptors :
+  (exists a b c d e f, parse_doc_out 380 None None (bs "@monthly") = Some (ObsOk a b c d e f)) /\
+  parse_doc_out 380 None (Some 5400000000000) (bs "@every 1h30m") = Some (ObsEvery 5400000000000) /\
+  parse_doc_out 380 None None (bs "@every 1h 30m") = Some ObsErr /\
+  parse_doc_out 380 None None (bs "@daily 5 * * * *") = Some ObsErr /\
+  parse_doc_out 380 None None (bs "@yearly @monthly") = Some ObsErr /\
+  parse_doc_out 380 (Some (fixed_zone 0)) None (bs "TZ=UTC @monthly 15") = Some ObsErr /\
+  (exists a b c d e f,
+     parse_doc_out 380 (Some (fixed_zone 0)) None (bs "TZ=UTC @monthly") = Some (ObsOk a b c d e f)) /\
+  parse_doc_out 380 None None (bs "TZ=Nowhere * * * * *") = Some ObsErr /\
+  parse_doc_out 380 (Some (fixed_zone 0)) None (bs "TZ=UTC") = Some ObsErr /\
+  parse_doc_out 124 None None (bs "@daily") = Some ObsErr /\
+  parse_doc_out 380 None None (bs "* * * *") = Some ObsErr.
+Proof. vm_compute. repeat split; try reflexivity; repeat eexists. Qed.
